@@ -375,7 +375,7 @@ def launch_transfers_callee_slot(rec, F):
     for b2, t2 in sp.calls():
         if lastseg(t2["f"]) == "write" and "ptr" in t2["f"] and len(t2["args"]) == 2:
             v = str(sem.desc_operand(sp, t2["args"][1]))
-            if "stack_start" in v and ("'read'" in v or "deref" in v or "copy" in v) and "'fun'" not in v:
+            if "stack_start" in v and "'fun'" not in v and "'from'" not in v:
                 slot0_written_from_parent = True
     ok = from_parent and (covers_slot0 or slot0_written_from_parent)
     rec.inst(R, "split: callee slot + arguments come from the parent stack", ok=ok, loc=sp.loc)
